@@ -48,7 +48,7 @@ theorem coupled_reconnect {s : Srv} {b : Bot} (hw : SrvWF s) (hc : Coupled s b) 
       simp only [Bot.stateCmd, cmdOf_001]
       refine ⟨rfl, ?_, ?_, ?_, rfl, rfl⟩
       · intro kc
-        show ChanRel _ (aget (s.dropEverywhere s.botKey).chans kc) none
+        show ChanRel _ kc (aget (s.dropEverywhere s.botKey).chans kc) none
         cases hsc' : aget (s.dropEverywhere s.botKey).chans kc with
         | none => trivial
         | some sc' =>
@@ -61,18 +61,8 @@ theorem coupled_reconnect {s : Srv} {b : Bot} (hw : SrvWF s) (hc : Coupled s b) 
             have a := has_remove_of hcon
             rw [not_has_of_free hw hsc (hcond hsame)] at a; cases a
       · intro x ux _ hv
-        exfalso
-        have hnd' : (akeys (s.dropEverywhere s.botKey).chans).Nodup := nodup_dropEverywhere hw.chansNodup _
-        unfold Srv.visible at hv
-        simp only [List.any_eq_true, Bool.and_eq_true] at hv
-        obtain ⟨⟨kc, sc'⟩, hm, h1, _⟩ := hv
-        have hsc' : aget (s.dropEverywhere s.botKey).chans kc = some sc' := aget_of_mem_nodup hnd' hm
-        obtain ⟨sc, hsc, rfl⟩ := dropEverywhere_chan hw.chansNodup hsc'
-        have h1' : (sc.remove s.botKey).has (lower s.cfg.botNick) = true := h1
-        by_cases hsame : lower s.cfg.botNick = s.botKey
-        · rw [hsame, has_remove_self] at h1'; cases h1'
-        · have a := has_remove_of h1'
-          rw [not_has_of_free hw hsc (hcond hsame)] at a; cases a
+        have hv' : x ∈ ([] : List Str) := hv
+        cases hv'
       · intro kc sc' hsc' hb'
         exfalso
         have hsc'' : aget (s.dropEverywhere s.botKey).chans kc = some sc' := hsc'
